@@ -110,7 +110,7 @@ class Check(BaseCheck):
                 for k in ks:
                     if 1 <= k < n:
                         yield dict(kind=kind, v=c["v"], t=c["t"], k=int(k), lump=bool(rng.random() < 0.5), name=c["name"],
-                                   dt="f64" if multi else ("f32" if rng.random() < 0.2 else "f64"), pres=c.get("pres"), vdtype=c.get("vdtype"), pre=[None, None, "poisson", "poisson-d", "eigs"][int(rng.integers(0, 5))])
+                                   dt="f64" if (multi or c["name"] == "multi-scale" or any(str(x).startswith(("far-offset", "unit:")) for x in c["tags"])) else ("f32" if rng.random() < 0.2 else "f64"), pres=c.get("pres"), vdtype=c.get("vdtype"), pre=[None, None, "poisson", "poisson-d", "eigs"][int(rng.integers(0, 5))])
 
     def correspond(self, drv, stats):
         fails = []
